@@ -2366,11 +2366,16 @@ static int32_t tls13ParseNewSessionTicket(ssl_t *ssl, psParseBuf_t *pb)
         if (ssl->sid->sessionTicket)
         {
             psFree(ssl->sid->sessionTicket, ssl->sid->pool);
+            ssl->sid->sessionTicket = NULL;
+            ssl->sid->sessionTicketLen = 0;
         }
 # endif
         if (ssl->sid->psk)
         {
+            /* The session id struct outlives a failure below: do not
+               leave it pointing at what was just freed. */
             tls13FreePsk(ssl->sid->psk, ssl->sid->pool);
+            ssl->sid->psk = NULL;
         }
     }
     else
